@@ -189,6 +189,21 @@ def dup_rule(ctx):
         ok = pushes[0] == coll and warns and warns[0] in ("DuplicatedAttribute", "DuplicatedName")
         obs.append(ob("C15.dup/%s#%d" % (coll.split(".")[-1], n), bool(ok), ctx.where(f), "duplicates are searched in `%s`, reported as %s, otherwise pushed into `%s`" % (coll, warns[:1], pushes[0]),
                       witness=None if ok else "the same attribute twice in this family is not flagged (and an unrelated family's name is)"))
+    # what is compared is the *name* of the stored item (the attribute name is what may not occur twice), never its value / alias
+    wrong_field, n_cmp = [], 0
+    for sn in sir.walk(f.node, into_items=True):
+        if sn.get("k") == "mcall" and sn["m"] in ("find", "any", "position", "find_map") and sn["args"] and sn["args"][0].get("k") == "closure":
+            clo = sn["args"][0]
+            params = [nm for pp in clo["params"] for nm, _p in sir.pat_bindings(pp)]
+            for x in sir.walk(clo["body"]):
+                if x.get("k") == "mcall" and x["m"] == "name_eq" and x["args"]:
+                    n_cmp += 1
+                    r_ = sir.expr_str(sir.strip_ref(x["recv"])).replace(" ", "")
+                    if not any(re.fullmatch(re.escape(p_) + r"(\.name|\.module_name\(\)|\.0)?", r_) for p_ in params):
+                        wrong_field.append("`%s.name_eq(%s)`" % (r_, sir.expr_str(x["args"][0])))
+    obs.append(ob("C15.dup/compares-names", False if wrong_field else True if n_cmp >= 10 else None, ctx.where(f),
+                  "a duplicate search compares %s" % wrong_field[:2] if wrong_field else "%d duplicate searches compare the stored item's name" % n_cmp,
+                  witness=None if not wrong_field else '<div slot:item="a" slot:item="b"/> is not reported as a duplicated attribute'))
     if n < 12:
         obs.append(ob("C15.floor/dup-checks", False, ctx.where(f), "only %d duplicate checks found (floor 12)" % n))
     # option-valued single attributes: `if X.is_some() { DuplicatedAttribute } else { X = Some(..) }`
@@ -318,6 +333,40 @@ def cursor_rule(ctx):
         x = dict(x)
         x["key"] = x["key"].replace("C16.cursor", "C15.cursor")
         obs.append(x)
+    return obs
+
+
+def wave11_rules(ctx):
+    """obligations added after the eleventh wave of seeded changes"""
+    ob = ctx.ob
+    tc = ctx.tc
+    obs = []
+    # every construct that reads attributes up to the end of a tag reports a tag that never ends: the function that calls the
+    # attribute reader of `<!meta ..>` tags tests for the closing `>` and reports IncompleteTag when it is missing
+    n_ = 0
+    for f in tc.fns:
+        if not f.body or f.module[:1] != ["parse"]:
+            continue
+        calls = [x for x in sir.walk(f.body, into_closures=True) if x.get("k") in ("call", "mcall") and sir.call_name(x) == "parse_until_tag_end"]
+        if not calls:
+            continue
+        n_ += 1
+        warns = [sir.expr_str(x["args"][0]).split("::")[-1] for x in sir.walk_reach(tc, f) if x.get("k") == "mcall" and x["m"].startswith("add_warning") and x["args"]]
+        import guards as gd
+        G = gd.guards_of(f.body)
+        guarded = False
+        for x in sir.walk(f.body, into_closures=True):
+            if x.get("k") == "mcall" and x["m"].startswith("add_warning") and x["args"] and sir.expr_str(x["args"][0]).endswith("IncompleteTag"):
+                gs_ = " ".join(sir.expr_str(sj) if kd == "cond" else sir.expr_str(sj[0]) for kd, sj, pl in G.get(id(x), []))
+                if ">" in gs_ or "ended" in gs_ or "peek" in gs_:
+                    guarded = True
+        own = any(x.get("k") == "mcall" and x["m"].startswith("add_warning") and x["args"] and sir.expr_str(x["args"][0]).endswith("IncompleteTag") for x in sir.walk(f.body, into_closures=True))
+        ok = own and guarded
+        obs.append(ob("C15.kinds/incomplete-tag/%s" % f.name, ok if (not own or guarded) else None, ctx.where(f),
+                      "after the attributes of a `<!..>` tag a missing `>` is reported as IncompleteTag: %s" % ok,
+                      witness=None if ok else "`<!foo bar` at the end of the input yields only the Note-level UnknownMetaTag"))
+    if n_ == 0:
+        obs.append(ob("C15.kinds/incomplete-tag/anchor", None, "parse/tag.rs", "no caller of the meta-tag attribute reader found"))
     return obs
 
 
@@ -581,4 +630,5 @@ def run(ctx):
     obs += wave8_rules(ctx)
     obs += wave9_rules(ctx)
     obs += wave10_rules(ctx)
+    obs += wave11_rules(ctx)
     return obs
